@@ -52,4 +52,5 @@ pub mod imbl {
         #[verifier::external_body]
         pub fn keys(&self) -> (r: Vec<&K>) ensures is_enum(self@, Seq::new(r@.len(), |i: int| *r@[i])) { unimplemented!() }
     }
+    impl<K, V> super::FromItems<(K, V)> for HashMap<K, V> { open spec fn built_from(items: Seq<(K, V)>, r: Self) -> bool { r@ == super::map_of_pairs(items) } }
 }
